@@ -455,6 +455,14 @@ func (m *Manager) addTCPConnection(allocation *Allocation, conn net.Conn) (proto
 	m.lock.Lock()
 	defer m.lock.Unlock()
 
+	// The allocation may have ended while the connection was being made (a
+	// slow dial, an inbound connection accepted during teardown). A connection
+	// added to it now would belong to nothing: nobody could bind it and only
+	// the bind timeout would close it.
+	if m.allocations[allocation.fiveTuple.Fingerprint()] != allocation {
+		return 0, ErrTCPConnectionTimeoutOrFailure
+	}
+
 	for _, a := range m.allocations {
 		if _, ok := a.tcpConnections[connectionID]; ok {
 			return 0, errFailedToGenerateConnectionID
